@@ -37,7 +37,7 @@ ESTIMATORS = LOC + SCALE + ["mse"]
 SMOOTHERS = ["rollmed", "kaiser", "savgol", "savgol_w"]
 HEAVY = ["biloc", "bivar", "qn"]          # n <= 60 (TLC cost)
 
-REQUIRE_CLAUSES = (
+REQUIRE_CLAUSES = list(
     [f"{e}_noerr" for e in ESTIMATORS + SMOOTHERS] + [f"{e}_range" for e in LOC + ["rollmed", "kaiser"]]
     + [f"{e}_{c}" for e in SCALE for c in ("nonneg", "zero_on_constant", "formula")]
     + ["biloc_formula", "mse_formula", "mse_nonneg", "wmedian_halfweight", "wmedian_equal_weights_is_median",
@@ -465,6 +465,8 @@ def structured_inputs():
     out.append(mk("bivar", g([-1, 0, 1])))
     out.append(mk("bivar", g([-3, -1, 0, 1, 3]), init=0))
     out.append(mk("bivar", g([-3, -1, 0, 1, 4]), init=0))
+    out.append(mk("bivar", g([-1, 0, 1, 9, 1.5]), init=0))     # MAD 1 about 0: the point at 9 has |u| = 1 exactly
+    out.append(mk("biloc", g([-1, 0, 1, 6, 0])))               # median 0, MAD 1: the point at 6 has |u| = 1 exactly
     # Qn finite-sample factor boundaries n = 10, 11
     out.append(mk("qn", list(range(0, 10 * 512, 512))))
     out.append(mk("qn", list(range(0, 11 * 512, 512))))
@@ -551,6 +553,15 @@ def run(ctx: Ctx):
                 "x widths as fractions, integers, wider than the signal.  A case is distinct by all input fields; "
                 "non-trivial when at least two values remain after NaN removal.")
     recs = []
+    # developer aid (mutant runs, debugging): VERIF_C19_OPS=wmedian,wmad restricts the run to those functions; the
+    # registered command never sets it, and a restricted run switches the vacuity guard off
+    only = set(filter(None, os.environ.get("VERIF_C19_OPS", "").split(",")))
+    if only:
+        REQUIRE_CLAUSES[:] = []
+        ctx.notes["restricted_to"] = sorted(only)
+    fam_ops = {"wmed": {"wmedian", "wmad"}, "est": {"mad", "iqr", "gapper", "qn", "mse", "wstd"},
+               "bw": {"biloc", "bivar"}, "smooth": {"rollmed", "pad"}, "wing": {"wing"}}
+    wanted = lambda est: not only or est in only
     # ---------------- direction 1
     if thorough:
         scopes = [("wmed", 4, [0, 1, 2], [1, 2, 3], 1, "weighted median/MAD: all vectors of length <= 4 over {0,1,2} x {1,2,3}"),
@@ -569,6 +580,7 @@ def run(ctx: Ctx):
                   ("smooth", 5, [0, 1, 2], [1], 1, "rolling median / padding: all signals of length <= 5 over {0,1,2} x 13 widths"),
                   ("smooth", 8, [0, 1], [1], 1, "rolling median: all binary signals of length <= 8 x 13 widths"),
                   ("wing", 24, [0], [1], 1, "_width2wing: lengths 1..24 x 18 widths (valid and invalid)")]
+    scopes = [sc for sc in scopes if not only or fam_ops[sc[0]] & only]
     for k, (fam, maxlen, vals, wts, unit, name) in enumerate(scopes):
         cfg = ctx.cfg(f"mc-{k}-{fam}", spec="Spec", invariants=["DesignOK"],
                       constants=_mc_constants(fam, maxlen, vals, wts, unit))
@@ -586,14 +598,16 @@ def run(ctx: Ctx):
 
     # ---------------- direction 2
     f = 6 if thorough else 1
-    inputs = structured_inputs()
-    plan = {"wmedian": 500, "wmad": 300, "wstd": 300, "mad": 300, "iqr": 300, "gapper": 300, "mse": 200, "mode": 200,
-            "biloc": 320, "bivar": 220, "qn": 110}
+    inputs = [i for i in structured_inputs() if wanted(i["est"])]
+    plan = {"wmedian": 400, "wmad": 240, "wstd": 240, "mad": 240, "iqr": 240, "gapper": 240, "mse": 160, "mode": 200,
+            "biloc": 300, "bivar": 200, "qn": 110}
     for est, cnt in plan.items():
-        inputs += random_estimator_inputs(ctx, est, cnt * f, 60 if est in HEAVY else 400)
+        if wanted(est):
+            inputs += random_estimator_inputs(ctx, est, cnt * f, 60 if est in HEAVY else 400)
     for est, cnt in {"rollmed": 300, "kaiser": 250, "savgol": 250, "savgol_w": 250}.items():
-        inputs += random_smoother_inputs(ctx, est, cnt * f)
-    inputs += random_helper_inputs(ctx, 400 * f)
+        if wanted(est):
+            inputs += random_smoother_inputs(ctx, est, cnt * f)
+    inputs += [i for i in random_helper_inputs(ctx, 400 * f) if wanted(i["est"])]
     rnd = ctx.execute(execute, inputs)
     recs += rnd
     for rec in recs:
@@ -601,7 +615,7 @@ def run(ctx: Ctx):
         ctx.count_input([rec[k] for k in INPUT_FIELDS if k not in ("x", "wx")], nontrivial=kept >= 2)
         _count_boundaries(ctx, rec)
     for rec in (recs[0], recs[n_mc // 2], rnd[0], rnd[len(rnd) // 2], rnd[-1]):
-        ctx.sample(rec)
+        ctx.sample({k: v for k, v in rec.items() if k not in ("x", "wx")})
     # heavy records (biweights, Qn, long signals) are spread over the batch so that the workers share them
     ctx.rng.shuffle(recs)
     ctx.validate(TRACE, recs, batch=20000, timeout=5400)
